@@ -106,7 +106,7 @@ func (fx *FnCtx) resolveAddr(addr ssa.Value) *Loc {
 		switch u := a.X.Type().Underlying().(type) {
 		case *types.Slice:
 			s := fx.val(a.X)
-			return &Loc{kind: locElem, base: app("Int", "s_arr", s), idx: app("Int", "sidx", s, fx.val(a.Index)), rootT: u.Elem()}
+			return &Loc{kind: locElem, base: app("Int", "s_arr", s), idx: eidx(s, fx.val(a.Index)), rootT: u.Elem()}
 		case *types.Pointer:
 			in := fx.resolveAddr(a.X)
 			n := *in
@@ -1285,6 +1285,7 @@ func (fx *FnCtx) appendCall(v *ssa.Call, c *ssa.CallCommon) {
 	var addLen Term
 	var elemAt func(k Term) Term
 	single := false
+	nconst := -1
 	var singleVal Term
 	t := c.Args[1]
 	if isString(t.Type()) {
@@ -1297,6 +1298,9 @@ func (fx *FnCtx) appendCall(v *ssa.Call, c *ssa.CallCommon) {
 		// varargs of one element?
 		if sli, ok := t.(*ssa.Slice); ok {
 			if al, ok := sli.X.(*ssa.Alloc); ok && al.Comment == "varargs" {
+				if at, ok := deref(al.Type()).Underlying().(*types.Array); ok && at.Len() > 1 && at.Len() <= 8 && sli.Low == nil && sli.High == nil {
+					nconst = int(at.Len())
+				}
 				if at, ok := deref(al.Type()).Underlying().(*types.Array); ok && at.Len() == 1 {
 					single = true
 					inner := app(is, "select", h, app("Int", "s_arr", tv))
@@ -1329,18 +1333,25 @@ func (fx *FnCtx) appendCall(v *ssa.Call, c *ssa.CallCommon) {
 		// in place: store; fresh: copy prefix
 		fx.assume(implies(fits, eq(ni, app(is, "store", oldInnerS, pos, singleVal))))
 		fx.assume(implies(not(fits), and(
-			Term{fmt.Sprintf("(forall ((k Int)) (! (=> (and (<= 0 k) (< k %s)) (= (select %s k) (select %s (+ %s k)))) :pattern ((select %s k))))", sl.S, ni.S, oldInnerS.S, soff.S, ni.S), "Bool"},
+			Term{fmt.Sprintf("(forall ((k Int)) (! (=> (and (<= 0 k) (< k %s)) (= (select %s k) (select %s (eidx %s k)))) :pattern ((select %s k))))", sl.S, ni.S, oldInnerS.S, soff.S, ni.S), "Bool"},
 			eq(app(es, "select", ni, sl), singleVal))))
 	} else {
 		// absolute positions j of the new backing array (pattern: any read of it)
 		jj := Term{"j", "Int"}
-		// copied prefix
-		fx.assume(Term{fmt.Sprintf("(forall ((j Int)) (! (=> (and (<= %s j) (< j (+ %s %s))) (= (select %s j) (select %s (+ %s (- j %s))))) :pattern ((select %s j))))", roff.S, roff.S, sl.S, ni.S, oldInnerS.S, soff.S, roff.S, ni.S), "Bool"})
-		// appended elements
-		rel := app("Int", "-", app("Int", "-", jj, roff), sl)
-		fx.assume(Term{fmt.Sprintf("(forall ((j Int)) (! (=> (and (<= (+ %s %s) j) (< j (+ %s %s))) (= (select %s j) %s)) :pattern ((select %s j))))", roff.S, sl.S, roff.S, nl.S, ni.S, elemAt(rel).S, ni.S), "Bool"})
+		// fresh array: the old elements are copied to the front
+		fx.assume(implies(not(fits), Term{fmt.Sprintf("(forall ((j Int)) (! (=> (and (<= 0 j) (< j %s)) (= (select %s j) (select %s (eidx %s j)))) :pattern ((select %s j))))", sl.S, ni.S, oldInnerS.S, soff.S, ni.S), "Bool"}))
 		// in place: cells outside the appended window are unchanged
 		fx.assume(implies(fits, Term{fmt.Sprintf("(forall ((j Int)) (! (=> (or (< j (+ %s %s)) (>= j (+ %s %s))) (= (select %s j) (select %s j))) :pattern ((select %s j))))", roff.S, sl.S, roff.S, nl.S, ni.S, oldInnerS.S, ni.S), "Bool"}))
+		// appended elements
+		if nconst >= 0 {
+			for k := 0; k < nconst; k++ {
+				pos := app("Int", "+", app("Int", "+", roff, sl), intLit(int64(k)))
+				fx.assume(eq(app(es, "select", ni, pos), elemAt(intLit(int64(k)))))
+			}
+		} else {
+			rel := app("Int", "-", app("Int", "-", jj, roff), sl)
+			fx.assume(Term{fmt.Sprintf("(forall ((j Int)) (! (=> (and (<= (+ %s %s) j) (< j (+ %s %s))) (= (select %s j) %s)) :pattern ((select %s j))))", roff.S, sl.S, roff.S, nl.S, ni.S, elemAt(rel).S, ni.S), "Bool"})
+		}
 	}
 	st.setHeap(comp, app(hs, "store", h, app("Int", "s_arr", r), ni))
 	fx.assume(fx.typeAssume(r, v.Type(), st))
